@@ -184,9 +184,10 @@ def norm_reference(x2):
     return cands, const
 
 
-def normalized_series_ok(x2, lib):
+def normalized_series_ok(x2, lib, tol=None):
     """Oracle series for the library's normalised series `lib`, or None.  Constant columns (unit
     std unattainable) only have to stay constant and are taken over from the library."""
+    tol = NTOL if tol is None else tol
     lib = np.asarray(lib, dtype=np.float64)
     if lib.shape != x2.shape or not np.isfinite(lib).all():
         return None
@@ -194,12 +195,12 @@ def normalized_series_ok(x2, lib):
     out = np.empty_like(x2)
     for c in range(x2.shape[1]):
         if const[c]:
-            if lib.shape[0] and float(lib[:, c].max() - lib[:, c].min()) > NTOL:
+            if lib.shape[0] and float(lib[:, c].max() - lib[:, c].min()) > tol:
                 return None
             out[:, c] = lib[:, c]
             continue
         for cand in cands:
-            if np.all(np.abs(lib[:, c] - cand[:, c]) <= NTOL * np.maximum(1.0, np.abs(cand[:, c]))):
+            if np.all(np.abs(lib[:, c] - cand[:, c]) <= tol * np.maximum(1.0, np.abs(cand[:, c]))):
                 out[:, c] = cand[:, c]
                 break
         else:
@@ -819,7 +820,24 @@ def run_isrn(rep, C, w):
             pass
 
 
-RUNNERS = {"RecurrencePlot": run_rp, "RecurrenceNetwork": run_rp, "CrossRecurrencePlot": run_crp,
+def run_normstatic(rep, C, w):
+    """RecurrencePlot.normalize_time_series(array) called directly (in place, 2-D array)."""
+    a = np.array(w["a"], dtype=np.float64)
+    arr = a.astype(w["dtype"])
+    rep.case(repr(("normalize_time_series", w["a"], w["dtype"])),
+             nontrivial=bool(a.shape[0] >= 2 and (a != a[0]).any()))
+    try:
+        C["RecurrencePlot"].normalize_time_series(arr)
+    except Exception as e:                                       # noqa: BLE001
+        rep.fail("normalize_time_series/applicable", w, f"{type(e).__name__}: {e}")
+        return
+    if normalized_series_ok(a, arr, 1e-9 if w["dtype"] == "float64" else None) is None:
+        rep.fail("normalize_time_series/zero-mean-unit-std-per-component", w,
+                 f"got {np.asarray(arr).tolist()} want {norm_reference(a)[0][0].tolist()} (population std; "
+                 f"sample std also accepted)")
+
+
+RUNNERS = {"normalize_time_series": run_normstatic, "RecurrencePlot": run_rp, "RecurrenceNetwork": run_rp, "CrossRecurrencePlot": run_crp,
            "JointRecurrencePlot": run_jrp, "JointRecurrenceNetwork": run_jrp,
            "InterSystemRecurrenceNetwork": run_isrn}
 
@@ -965,7 +983,7 @@ def cases(tier, seed):
                             w.update(dim=emb[0], tau=emb[1])
                         yield w
     # ---- JointRecurrencePlot / JointRecurrenceNetwork
-    def joint_cases(cls, x, y, embs, rqa_every):
+    def joint_cases(cls, x, y, embs, rqa_every, nflag=None):
         n = len(x)
         for emb in embs:
             if emb is None:
@@ -976,17 +994,29 @@ def cases(tier, seed):
                 N0 = min(n - (dim[0] - 1) * tau[0], n - (dim[1] - 1) * tau[1])
             if N0 < 1:
                 continue
-            sx = states_of(x, dim[0] if dim else None, tau[0] if dim else None)[:N0]
-            sy = states_of(y, dim[1] if dim else None, tau[1] if dim else None)[:N0]
+            if nflag is None:
+                sx = states_of(x, dim[0] if dim else None, tau[0] if dim else None)[:N0]
+                sy = states_of(y, dim[1] if dim else None, tau[1] if dim else None)[:N0]
+            else:
+                fx, fy = (nflag if isinstance(nflag, list) else (nflag, nflag))
+                sx = oracle_embed(norm_or_raw(x, fx), dim[0] if dim else None, tau[0] if dim else None)[:N0]
+                sy = oracle_embed(norm_or_raw(y, fy), dim[1] if dim else None, tau[1] if dim else None)[:N0]
             for lag in range(-(N0 - 1), N0):
                 k = (n + lag + (0 if emb is None else 1)) % 3
                 mets = (S.METRICS[k], S.METRICS[(k + 1 + (lag % 2)) % 3])
                 Dx, Dy = S.distance_matrix(sx, sx, mets[0]), S.distance_matrix(sy, sy, mets[1])
-                vs = [["threshold", t] for t in pair_thresholds(Dx, Dy)]
+                if nflag is None:
+                    vs = [["threshold", t] for t in pair_thresholds(Dx, Dy)]
+                else:
+                    tx, ty = mid_thresholds(Dx, 3), mid_thresholds(Dy, 3)
+                    vs = [["threshold", [tx[i % len(tx)], ty[(i * 2 + 1) % len(ty)]]]
+                          for i in range(max(len(tx), len(ty)))]
                 vs += [["threshold_std", [1.0, 0.5]], ["recurrence_rate", [0.3, 0.5]], ["recurrence_rate", [1.0, 0.25]]]
-                w = {"cls": cls, "x": x, "y": y, "metric": list(mets), "lag": lag, "exact": True,
+                w = {"cls": cls, "x": x, "y": y, "metric": list(mets), "lag": lag, "exact": nflag is None,
                      "rqa_every": rqa_every,
                      "variants": both(vs) if (T or n <= 2 or lag % 2 == 0) else [v + ["ctor"] for v in vs]}
+                if nflag is not None:
+                    w["normalize"] = nflag
                 if emb:
                     w.update(dim=list(dim), tau=list(tau))
                 yield w
@@ -1033,6 +1063,113 @@ def cases(tier, seed):
         if emb:
             w.update(dim=emb[0], tau=list(emb[1]))
         yield w
+    # ---- normalize=True: every class that has the option
+    for x in seqs(ALPH, 1, 5 if T else 4):
+        n = len(x)
+        for emb in (None, (2, 1), (3, 1), (2, 2)):
+            if emb_len(n, emb) < 1:
+                continue
+            for mi, metric in enumerate(S.METRICS):
+                if not T and n == 4 and mi != (int(sum(x)) + EMBS.index(emb)) % 3:
+                    continue
+                yield rp_case("RecurrencePlot", x, emb, metric, rich=(n <= 3 or T), rqa_every=6,
+                              all_metrics=(mi == 2), normalize=True)
+    for n in range(1, 4 if T else 3):
+        for xs in itertools.product(A2, repeat=n):
+            yield rp_case("RecurrencePlot", [list(p) for p in xs], None, S.METRICS[(n + int(xs[0][0])) % 3],
+                          rich=False, rqa_every=6, all_metrics=False, normalize=True)
+    for x in seqs(ALPH, 2, 5 if T else 4):
+        for emb in (None, (2, 1)):
+            if emb_len(len(x), emb) >= 2:
+                yield rp_case("RecurrenceNetwork", x, emb, S.METRICS[(len(x) + int(sum(x))) % 3], rich=False,
+                              rqa_every=4, all_metrics=False, normalize=True)
+    for x in allx:
+        for y in allx:
+            for emb in (None, (2, 1)):
+                if emb_len(len(x), emb) < 1 or emb_len(len(y), emb) < 1:
+                    continue
+                if not T and (len(x) + len(y) + int(sum(x)) + int(sum(y))) % 2:
+                    continue
+                metric = S.METRICS[(len(x) + 2 * len(y) + int(sum(x))) % 3]
+                sx = oracle_embed(norm_or_raw(x), *(emb or (None, None)))
+                sy = oracle_embed(norm_or_raw(y), *(emb or (None, None)))
+                D = S.distance_matrix(sx, sy, metric)
+                vs = [["threshold", t] for t in mid_thresholds(D, 4)] + \
+                     [["recurrence_rate", r] for r in (0.0, 0.3, 1.0)]
+                w = {"cls": "CrossRecurrencePlot", "x": x, "y": y, "metric": metric, "exact": False,
+                     "normalize": True, "variants": both(vs)}
+                if emb:
+                    w.update(dim=emb[0], tau=emb[1])
+                yield w
+    NFLAGS = (True, [True, True], [False, False], [True, False], [False, True])
+    for n in range(1, 4):
+        for x in itertools.product(ALPH, repeat=n):
+            for y in itertools.product(ALPH, repeat=n):
+                h = int(sum(x)) + 2 * int(sum(y)) + n
+                flags = NFLAGS if n <= 2 else (NFLAGS[h % 2],)       # flags with a False: n <= 2 only
+                for fl in flags:
+                    yield from joint_cases("JointRecurrencePlot", list(x), list(y),
+                                           jembs[:2] if (T or n <= 2) else (jembs[h % 2],), 5, nflag=fl)
+                if n >= 2 and (T or h % 3 == 0):
+                    yield from joint_cases("JointRecurrenceNetwork", list(x), list(y), jembs[:1], 5,
+                                           nflag=NFLAGS[h % 5] if n == 2 else NFLAGS[h % 2])
+    for k in range(cnt // 2):
+        x = all4[rng.randint(len(all4))]
+        y = all4[rng.randint(len(all4))]
+        emb = (None, (2, (1, 1)), (2, (1, 2)))[k % 3]
+        if emb and (len(x) - emb[1][0] < 1 or len(y) - emb[1][1] < 1):
+            emb = None
+        metric = S.METRICS[k % 3]
+        sx = oracle_embed(norm_or_raw(x), emb[0] if emb else None, emb[1][0] if emb else None)
+        sy = oracle_embed(norm_or_raw(y), emb[0] if emb else None, emb[1][1] if emb else None)
+        Dx, Dy, Dxy = (S.distance_matrix(a, b, metric) for a, b in ((sx, sx), (sy, sy), (sx, sy)))
+        tx, ty, txy = mid_thresholds(Dx, 3), mid_thresholds(Dy, 3), mid_thresholds(Dxy, 3)
+        vs = [["threshold", [tx[i % len(tx)], ty[(i + 1) % len(ty)], txy[(i + 2) % len(txy)]]] for i in range(3)]
+        vs += [["recurrence_rate", [0.3, 0.5, 0.25]]]
+        w = {"cls": "InterSystemRecurrenceNetwork", "x": x, "y": y, "metric": metric, "exact": False,
+             "normalize": True, "variants": [v + ["ctor"] for v in vs]}
+        if emb:
+            w.update(dim=emb[0], tau=list(emb[1]))
+        yield w
+    # ---- normalize_time_series called directly (float64 and float32 arrays, 1..3 components)
+    for n in range(1, 4):
+        for xs in itertools.product(A2, repeat=n):
+            yield {"cls": "normalize_time_series", "a": [list(p) for p in xs], "dtype": ("float64", "float32")[n % 2]}
+    for k in range(200 if T else 30):
+        n, d = 1 + rng.randint(30), 1 + rng.randint(3)
+        sc = 10.0 ** rng.randint(-2, 3, d)
+        a = np.float32((rng.standard_normal((n, d)) + rng.randint(-5, 6, d)) * sc)   # |mean|/std <= ~5
+        if k % 5 == 0:
+            a[:, rng.randint(d)] = float(rng.randint(-3, 4))
+        yield {"cls": "normalize_time_series", "a": a.astype(np.float64).tolist(), "dtype": ("float64", "float32")[k % 2]}
+    # ---- user-assigned embeddings (explicit rows; RecurrencePlot.legendre_coordinates)
+    x0 = [0.0, 3.0, 4.0, 0.0]
+    ai = 0
+    for m, d in ((1, 1), (2, 1), (3, 1), (4, 1), (5, 1), (1, 2), (2, 2), (3, 2)):
+        for flat in itertools.product(ALPH, repeat=m * d):
+            ai += 1
+            if m * d >= 5 and not T and ai % 4:
+                continue
+            Y = [list(flat[i * d:(i + 1) * d]) for i in range(m)]
+            yield assign_case("RecurrencePlot", x0, {"Y": Y}, S.METRICS[ai % 3], True, rqa_every=3)
+            if m >= 2 and (T or ai % 3 == 0):
+                yield assign_case("RecurrenceNetwork", x0, {"Y": Y}, S.METRICS[(ai + 1) % 3], True, rqa_every=3)
+    for k in range(200 if T else 36):
+        n = 8 + rng.randint(33)
+        x = (np.sin(np.arange(n) * rng.uniform(0.1, 1.0)) + 0.3 * rng.standard_normal(n)) if k % 2 else rng.standard_normal(n)
+        x = np.float32(x).astype(np.float64).tolist()
+        spec = {"dim": 1 + int(rng.randint(4))}
+        mode = k % 4
+        if mode == 0:
+            spec["p"] = 1 + int(rng.randint(min(3, (n - 2) // 2)))
+        elif mode == 1:
+            spec["tau_w"] = None                                 # p = dim
+        elif mode == 2:
+            spec["tau_w"] = float(rng.uniform(2.0, 6.0))
+        if k % 3 == 0:
+            spec["t"] = np.cumsum(rng.uniform(0.5, 1.5, n)).tolist()       # irregular sampling times
+        yield assign_case("RecurrenceNetwork" if k % 5 == 4 else "RecurrencePlot", x, spec, S.METRICS[k % 3],
+                          False, rqa_every=2)
     # ---- random larger, inexact arithmetic
     nr = 150 if T else 24
 
@@ -1085,6 +1222,39 @@ def cases(tier, seed):
         if emb:
             w.update(dim=[emb[0][0], emb[0][1]], tau=[emb[1][0], emb[1][1]])
         yield w
+    # ---- random larger with normalize=True
+    for k in range(nr):
+        n = 6 + rng.randint(35)
+        metric = S.METRICS[k % 3]
+        d = (None, 2, 3)[k % 3]
+        emb = None if d else (None, (2, 1), (3, 2), (2, 5))[rng.randint(4)]
+        x = (np.float32(rng.standard_normal((n, d) if d else n) * 3.0 + 2.0)).astype(np.float64).tolist()
+        yield rp_case("RecurrenceNetwork" if k % 4 == 3 else "RecurrencePlot", x, emb, metric, rich=False,
+                      rqa_every=5, all_metrics=True, normalize=True)
+        ny = 6 + rng.randint(25)
+        y = (np.float32(rng.standard_normal((ny, d) if d else ny) * 0.5 - 1.0)).astype(np.float64).tolist()
+        embc = emb if (emb and emb_len(ny, emb) >= 1) else None
+        sx = oracle_embed(norm_or_raw(x), *(embc or (None, None)))
+        sy = oracle_embed(norm_or_raw(y), *(embc or (None, None)))
+        fl = np.sort(S.distance_matrix(sx, sy, metric).ravel())
+        vs = [["threshold", float(fl[len(fl) // 3]) + 1e-4], ["threshold", 1.0], ["recurrence_rate", 0.2]]
+        w = {"cls": "CrossRecurrencePlot", "x": x, "y": y, "metric": metric, "exact": False, "normalize": True,
+             "variants": both(vs)}
+        if embc:
+            w.update(dim=embc[0], tau=embc[1])
+        yield w
+        w2 = {"cls": "InterSystemRecurrenceNetwork", "x": x, "y": y, "metric": metric, "exact": False,
+              "normalize": True,
+              "variants": [["threshold", [0.8, 1.1, 0.9], "ctor"], ["recurrence_rate", [0.1, 0.2, 0.15], "ctor"]]}
+        if embc:
+            w2.update(dim=embc[0], tau=[embc[1], 1])
+        yield w2
+        y2 = (np.float32(rng.standard_normal((n, d) if d else n) * 0.5 - 1.0)).astype(np.float64).tolist()
+        lag = int(rng.randint(-3, 4))
+        yield {"cls": "JointRecurrenceNetwork" if k % 3 == 2 else "JointRecurrencePlot", "x": x, "y": y2,
+               "metric": [metric, S.METRICS[(k // 3) % 3]], "lag": lag, "exact": False, "rqa_every": 2,
+               "normalize": True,
+               "variants": both([["threshold", [0.9, 1.2]], ["threshold_std", [0.6, 0.8]], ["recurrence_rate", [0.3, 0.4]]])}
 
 
 def main(argv=None):
